@@ -122,6 +122,17 @@ pub proof fn g1_generator_on_curve()
               f"  assert((({zz0} * {zz0} - {zz1} * {zz1}) * ({zz0} * {zz0} - {zz1} * {zz1}) - (2 * {zz0} * {zz1}) * (2 * {zz0} * {zz1})) % QV() == QV() - 1) by(compute); assert((2 * ({zz0} * {zz0} - {zz1} * {zz1}) * (2 * {zz0} * {zz1})) % QV() == 0) by(compute); }}")
     if len(set(zs)) != 4:
         raise weave.AnchorLost("ETAS: the four quotients eta^2 / xi^3 are not pairwise distinct")
+    # the generators have order r: [r]G = O on the standard coordinates (which the proofs above tie to the crate's constants), computed with the independent
+    # big-integer curve arithmetic of vx/refute.py - a closed-term fact established by the generator of this unit, not by Verus
+    from vx.refute import F1, F2, ec_mul, on_curve
+    g1 = ([e for e in EXPECT if e[1] == 'G1_GENERATOR_X'][0][2][0], [e for e in EXPECT if e[1] == 'G1_GENERATOR_Y'][0][2][0])
+    gv = {nm: [e for e in EXPECT if e[1] == nm][0][2][0] for nm in ('G2_GENERATOR_X_C0', 'G2_GENERATOR_X_C1', 'G2_GENERATOR_Y_C0', 'G2_GENERATOR_Y_C1')}
+    g2 = ((gv['G2_GENERATOR_X_C0'], gv['G2_GENERATOR_X_C1']), (gv['G2_GENERATOR_Y_C0'], gv['G2_GENERATOR_Y_C1']))
+    if not (on_curve(F1, g1) and ec_mul(F1, R, g1) is None and ec_mul(F1, 1, g1) is not None):
+        raise weave.AnchorLost("G1 generator: not a point of order r")
+    if not (on_curve(F2, g2) and ec_mul(F2, R, g2) is None):
+        raise weave.AnchorLost("G2 generator: not a point of order r")
+    u.generator_facts = ["[r]G1 = O and [r]G2 = O for the standard generator coordinates (exact big-integer curve arithmetic in the unit's generator)"]
     # moduli of the two fields (raw limbs)
     for F, mod, mval in (('Fq', 'fq', Q), ('Fr', 'fr', R)):
         l = limbs_of(u.real_const(mod, 'MODULUS'))
